@@ -72,5 +72,5 @@ chk("C17", "model_checking", "explicit-state BFS over sorter bookkeeping states 
     "Every reachable bookkeeping state (below a stated growth cap) x every size class (empty, 1 byte, exact fit, one more, one doubling, several doublings) is executed natively under a guard-band / layout-checking / poisoning allocator with overflow checks and compared with the model (a leak must repeat when the run is repeated); runs with the shipped constants (buffers up to 10 MiB) and absurd budgets in child processes (a refusal by panic or allocation-error abort is accepted, an overflow or an impossible layout is not); size sequences and read-path scenarios are executed under Miri. The UB monitors judge each execution; the enumeration makes it exhaustive within the bounds.",
     "Trusted: Miri (Stacked Borrows, leak check) and the checking allocator as monitors; zstd (FFI) is not run under Miri; the claim is per enumerated execution.", "DESIGN.md 4 C17")
 chk("C18", "model_checking", "bounded-exhaustive enumeration of all insert sequences (sorted, duplicate, descending) x layouts under catch_unwind; per-block order from an independent block walk",
-    "All insert sequences up to length n over 6 keys x 2 value sizes x interval x index levels: either the writer panics or every emitted block, data and index alike, is strictly ascending; ascending sequences must not panic; every accepted file is also streamed through a Merger into a second writer; sequences with a 1.3 MB value. grenad is built without debug assertions, so a check demoted to debug_assert! counts as absent. All three outcomes occur and are counted.",
+    "All insert sequences up to length n over 6 keys x 2 value sizes x interval x index levels: either the writer panics or every emitted block, data and index alike, is strictly ascending; ascending sequences must not panic; every accepted file is also streamed through a Merger into a second writer; sequences with a 1.3 MB value. C18 runs in a second build of the checker in which grenad alone is compiled without debug assertions, so a check demoted to debug_assert! counts as absent. All three outcomes occur and are counted.",
     "Trusted: the independent block walk.", "DESIGN.md 4 C18")
